@@ -24,6 +24,14 @@ RULE = ('cases: 2-4 threads each running its own event loop (asyncio.run or run_
 ESSENTIAL = ['cross-loop-wait', 'take-over', 'zero-duration', 'left-pending']
 
 
+ENUM_EXHAUSTIVE = {'quick': 'every single-preemption schedule (decision index x target thread) of the canonical small programs in cache_common.canonical_programs',
+                   'thorough': 'every single-preemption schedule of the canonical small programs'}
+
+
+def enumerate_cases(tier, shard=0, nshards=1):
+    return G.single_preemption_cases('c01', shard, nshards)
+
+
 def strategy(tier):
     return G.case_strategy('c01')
 
